@@ -340,9 +340,21 @@ class Exec:
         else:
             if z3.is_bool(val): val = z3.If(val, z3.BitVecVal(1, 8 * n), z3.BitVecVal(0, 8 * n))
             st.sym[addr] = (n, 'i', val)
+    def _addr_alts(self, addr):
+        # a pointer chosen by a select between two concrete objects (std::min / std::max return references): (condition, address if true, address if false)
+        if z3.is_expr(addr) and z3.is_app_of(addr, z3.Z3_OP_ITE):
+            c, a, b = addr.children()
+            if z3.is_bv_value(a) and z3.is_bv_value(b): return c, a.as_long(), b.as_long()
+        return None
     def load(self, st, addr, ty):
         ty = self.m.resolve(ty); n = self.m.sizeof(ty)
-        if not isinstance(addr, int): raise Unsupported('symbolic load address')
+        if not isinstance(addr, int):
+            alt = self._addr_alts(addr)
+            if alt is not None and not isinstance(ty, (StructTy, ArrTy)):
+                c, a, b = alt; va = self.load(st, a, ty); vb = self.load(st, b, ty)
+                if isinstance(ty, FloatTy): return z3.If(c, self.dom.z(va), self.dom.z(vb))
+                return self.ite(c, va, vb, ty)
+            raise Unsupported('symbolic load address')
         if isinstance(ty, (StructTy, ArrTy)): return self.load_agg(st, addr, ty)
         self.check_access(st, addr, n, 'load')
         if self.track_uninit and self._is_uninit(st, addr, n):
